@@ -108,13 +108,20 @@ def run(ctx):
     if not ctx.quick:
         # length 5 over the 14-letter alphabet is 580k inputs; keep the three 12-letter ones at 5 and Mix at 4
         pass
-    for a in alphabets:
+    # the four generator / model-check runs side by side (2 TLC workers each), then drive + judge one after another
+    import concurrent.futures as _cf
+
+    def _gen(a):
         nn = n if (ctx.quick or a in ("SigmaStr", "SigmaNum")) else 4   # 271k inputs each at length 5
         name = "%s%d" % (a, nn)
         c = "Gen_c05_%s.cfg" % name
         open(ctx.path("spec", c), "w").write(cfg(nn, a))
         cf = ctx.path("cases_%s.ndjson" % name)
-        r = ctx.tlc("Gen_c05", c, env={"CASE_FILE": cf}, workers=4, timeout=2400, expect_ok=False)
+        r = ctx.tlc("Gen_c05", c, env={"CASE_FILE": cf}, workers=2 if ctx.quick else 4, timeout=2400, expect_ok=False)
+        return name, cf, r
+    with _cf.ThreadPoolExecutor(max_workers=4 if ctx.quick else 2) as ex:
+        gens = list(ex.map(_gen, alphabets))
+    for name, cf, r in gens:
         if r.invariant_violated or not r.ok:
             raise vp.Broken("pass M failed: the design spec of the lexer violates the property spec beyond the named "
                             "deviations:\n" + "\n".join(r.out.splitlines()[-40:]))
